@@ -6,6 +6,7 @@ ASSUME = [
     "reported moments are compared (1) with the first/second moment of the bunch's own stored projection, computed by the oracle in double (plain sums), and (2) for single Gaussians with the analytic mean/width at 1e-3/2e-3 sigma (+32*n*2^-24*extent for float accumulation) (Gaussians at least 2.5 cells wide and 5.5 sigma inside the grid, so discretisation error is far below that)",
     "the generating constructor (start distribution of width 'zoom', at least 1.5 cells, up to wider than the grid) must hand out a grid whose bunches already integrate to their shares (same tolerance)",
     "half of the smooth cases ask for the position moments right after integrateAndNormalize(), before any projection is refreshed (the order of main()'s final record): they must be the moments of the stored projection normalised by that projection's own charge",
+    "program part: RenormalizeCharge r in 1..8 with output cadences that are not multiples of r, wide start distributions that lose charge at the border, 1-3 buckets: every phase space saved at a step that is a multiple of r must integrate per bunch to its share at 2e-5 (unit = total of the first record)",
     "a quarter of the multi-bunch cases start from data whose total charge is already one but whose per-bunch shares differ from the filling pattern",
     "cells of equal size in q and p are the main class (the only one the program can produce); different cell sizes are a separately keyed class",
 ]
@@ -20,3 +21,5 @@ def run(ctx):
     core.run_harness(ctx, "c09", 1600 if th else 96, variant="asan")
     ctx.min_events = {"shares_checked": 1000, "moments_checked": 1000, "gaussian_moments_checked": 300,
                       "copies_checked": 500, "prenormalised_cases": 100, "independence_checked": 500, "empty_buckets_checked": 50, "constructed_shares_checked": 1000, "moments_right_after_renormalisation_checked": 300}
+    from checks import c09_prog
+    c09_prog.run(ctx)
